@@ -33,3 +33,6 @@ def run(ctx) -> None:
     split_rule(ctx, "C06.D1.memory-operand-reaches-normaliser-whole", Ip)
     _paths, _sites, _pats = instr_patterns(Ip)
     operands_from_operand_group(ctx, "C06.D1.operands-only-from-operand-group", Ip, _sites)
+    # D3: end to end on token templates: compiled $deref regex vs the normaliser's output, all presence patterns and spellings
+    from ..shapes import deref_end_to_end
+    deref_end_to_end(ctx, make_interp(ctx.p), "C06.D3.compiled-deref-accepts-normalised-operand", "C06.D3.other-presence-patterns-rejected")
